@@ -35,6 +35,7 @@ fn main() {
         "c01" => c01r::run(&cfg),
         "c02" => wire::run("C02", &cfg),
         "c03" => wire::run("C03", &cfg),
+        "c07" => c19::run_c07(&cfg),
         "c08" => rsrv::run_c08(&cfg),
         "c09" => rsrv::run_c09(&cfg),
         "c10" => rsrv::run_c10(&cfg),
